@@ -23,6 +23,7 @@ RULE = (
     '[0,1) and at least 5 points collected; distinct = SHA-1 of (group, lattice, site, positions).'
 )
 RULE += ' Added in rounds 6-9: positions bitwise on site centres / images; trajectory cells expanded / compressed by about 1 % or reoriented.'
+RULE += ' Round 14: 10 (200) ideal-lattice inputs (nodes of a 1 A grid, site on a node, radius 1 / 2 / 3 A) whose distances are exact; pairs exactly at the radius are not below it.'
 ASSUMPTIONS = [
     'pymatgen space-group operation tables and SymmOp.operate / inverse are trusted',
     'lattices are generated compatible with the group (checked with SpaceGroup.is_compatible), so operations are isometries',
@@ -37,7 +38,56 @@ _mon = Monitor()
 
 def units(tier):
     groups = QUICK_GROUPS if tier == 'quick' else list(range(1, 231))
-    return [{'k': 'sg', 'n': n, 'r': r} for n in groups for r in range(REPS[tier])]
+    # 'grid': ideal-lattice input whose distances to the site images are exact numbers, some of them exactly the radius
+    return [{'k': 'sg', 'n': n, 'r': r} for n in groups for r in range(REPS[tier])] + [{'k': 'grid', 'n': n, 'r': r} for r in range(2 if tier == 'quick' else 40) for n in (1, 2, 47, 123, 221)]
+
+
+def run_grid(unit, rng, ctx):
+    """Positions on the nodes of a 1 A grid in an 8 A (x 8 or 16 A) cell, site on a node, radius 1, 2 or 3 A: the distances
+    are square roots of whole numbers, computed exactly, so "below the radius" is decided exactly (a position at exactly
+    the radius is not below it)."""
+    from gemdat.shape import ShapeAnalyzer
+    from pymatgen.core import Lattice, PeriodicSite
+    from pymatgen.symmetry.groups import SpaceGroup
+
+    n = unit['n']
+    with warnings.catch_warnings():
+        warnings.simplefilter('ignore')
+        sg = SpaceGroup.from_int_number(n)
+        c_len = 8.0 if n in (1, 2, 221) or rng.integers(2) else 16.0
+        lat = Lattice(np.diag([8.0, 8.0, c_len]))
+        if not sg.is_compatible(lat):
+            raise Skip('grid lattice not compatible')
+        m = np.asarray(lat.matrix)
+        dims = np.array([8, 8, int(c_len)])
+        site = rng.integers(0, dims) / dims
+        radius = float(rng.choice([1.0, 2.0, 3.0]))
+        analyzer = ShapeAnalyzer(sites=[PeriodicSite('Li', site, lat, label='Li0')], lattice=lat, spacegroup=sg)
+        ops = list(analyzer.spacegroup)
+        idx = np.stack(np.meshgrid(*[np.arange(d_) for d_ in dims], indexing='ij'), axis=-1).reshape(-1, 3)
+        if len(ops) * len(idx) > 20000:
+            idx = idx[rng.choice(len(idx), size=20000 // len(ops), replace=False)]
+        positions = idx / dims
+        what = f'{sg.symbol} (#{n}) grid input, cell {np.diag(m).tolist()}, site {site.tolist()}, radius {radius}'
+        wit = {'spacegroup': sg.symbol, 'lattice': m, 'radius': radius, 'site': site}
+        shapes = analyzer.analyze_positions(positions.copy(), radius=radius)
+        # exact squared distances in A^2 (whole numbers): differences of node indices, minimum image per axis
+        want_n = at_radius = 0
+        for op in ops:
+            sym = np.asarray(op.operate(site)) * dims
+            dv = idx - np.round(sym)[None, :]
+            dv = dv - dims * np.round(dv / dims)
+            d2 = (dv * dv).sum(axis=1)
+            want_n += int(np.sum(d2 < radius * radius))
+            at_radius += int(np.sum(d2 == radius * radius))
+            if float(np.abs(sym - np.round(sym)).max()) > 1e-9:
+                raise Skip('operation moves the node off the grid')
+        got = np.asarray(shapes[0].coords)
+        far = float(np.linalg.norm(got, axis=1).max()) if len(got) else 0.0
+        ctx.check(len(got) == want_n and far < radius, f'{what}: {len(got)} points collected (farthest {far!r} A); {want_n} (operation, position) pairs are below the radius and {at_radius} lie exactly at it', wit)
+        ctx.count('grid_inputs')
+        ctx.count('pairs_exactly_at_the_radius', at_radius)
+        ctx.case(f'grid{n}-{unit["r"]}', at_radius > 0, sample={'kind': 'grid', 'spacegroup': sg.symbol, 'radius': radius, 'pairs_at_radius': at_radius})
 
 
 def setup(ctx):
@@ -141,6 +191,8 @@ def compare(ctx, what, wit, shape, want, knife, radius):
 
 
 def run_unit(unit, rng, ctx):
+    if unit.get('k') == 'grid':
+        return run_grid(unit, rng, ctx)
     from gemdat.shape import ShapeAnalyzer
     from pymatgen.core import PeriodicSite, Structure
     from pymatgen.symmetry.groups import SpaceGroup
